@@ -31,7 +31,7 @@ ASSUMPTIONS = [
 DECIDING = ['tcpcl.session:Messenger.merge_session_params', 'tcpcl.session:Messenger._keepalive_timeout', 'tcpcl.session:Messenger._idle_timeout',
             'tcpcl.session:Messenger._modulate_tx_seg_size', 'tcpcl.session:Messenger._keepalive_reset', 'tcpcl.session:Messenger._idle_reset']
 REQUIRED_OBS = ['runs', 'negotiations_checked', 'keepalives_checked', 'idle_timeouts_checked', 'mute_peer_closures', 'modulate_calls',
-                'segments_vs_mru']
+                'segments_vs_mru', 'stalled_reader_runs', 'unreportable_nodeid_runs']
 
 KEEPALIVES = [0, 1, 2, 5, 30, 65535]
 IDLES = [0, 1, 3, 10]
